@@ -234,6 +234,7 @@ func runC15(c *fw.Ctx) {
 	e := NewEnv(c, o)
 	defer e.L.Cleanup()
 	g := NewGen(e)
+	e.DupSignersPct = 25
 	w := defaultMix
 	// no staking traffic (undelegating the only validator's stake leaves an export without validators)
 	// and no transfers into the gov module account (x/gov's own InitGenesis refuses an account
